@@ -453,6 +453,13 @@ func (p *pm) editPayload(e Edit) bool {
 		}
 	case "dup-target-null-after", "dup-target-null-before":
 		addDup(mem{"targetArtifact", "null"})
+	case "extra-desc-unknown-then-dup-target-null-after":
+		// two edits at once: an unknown field inside the descriptor, and the target repeated as null
+		// after it. A decoder that binds to the payload structure keeps the first object (null leaves
+		// a structure as it is); one that reads a generic map sees only the null
+		m := []mem{{"extra", `"x"`}, {"Urls", `["https://example.com/a"]`}, {"subject", `{"digest":"sha256:00"}`}}[n%3]
+		p.descPost = append(p.descPost, m)
+		addDup(mem{[]string{"targetArtifact", "targetArtifact", "TargetArtifact"}[(n/3)%3], "null"})
 	case "dup-target-other-after", "dup-target-other-before":
 		addDup(mem{"targetArtifact", p.withDigestEdited(n)})
 	case "dup-target-emptyobj-after", "dup-target-emptyobj-before":
